@@ -133,6 +133,7 @@ def run_case(case):
     hist = {"submitted": [], "outcome": {}, "stall": False}
     counter = {"n": 0, "iter": -1}
     real_ensure = ethercat.ensure_future
+    real_packet = ethercat.Packet
     real_randint = ethercat.randint
     state = {"index": 2000}
 
@@ -152,6 +153,18 @@ def run_case(case):
                 raise StallDetected("send loop spins without awaiting")
             return real_ensure(coro)
         ethercat.ensure_future = counting_ensure
+
+        class CountingPacket(real_packet):
+            def append(self, *a, **kw):
+                if counter["iter"] != loop.iterations:
+                    counter["iter"] = loop.iterations
+                    counter["n"] = 0
+                counter["n"] += 1
+                if counter["n"] > 1000:
+                    hist["stall"] = True
+                    raise StallDetected("send loop spins without awaiting")
+                return super().append(*a, **kw)
+        ethercat.Packet = CountingPacket
         ec = EtherCat("verif")
         ec.send_queue = asyncio.Queue()
         tr = Responder(loop, case, ec)
@@ -199,6 +212,7 @@ def run_case(case):
         return dict(ok=True, nontrivial=False, classes=["inconclusive"])
     finally:
         ethercat.ensure_future = real_ensure
+        ethercat.Packet = real_packet
         ethercat.randint = real_randint
 
     oversize = [i for i, s in enumerate(tasks) if s["size"] > MAXDATA]
